@@ -31,7 +31,14 @@ use crate::mqtt::packet::kind::PacketKind;
 use crate::mqtt::packet::GenericPacket;
 use crate::mqtt::packet::IsPacketId;
 use crate::mqtt::result_code::MqttError;
+#[cfg(not(feature = "verif-models"))]
 use alloc::vec::Vec;
+#[cfg(feature = "verif-models")]
+use crate::mqtt::common::verif_model::Vec;
+#[cfg(feature = "verif-models")]
+macro_rules! vec {
+    ($($x:expr),* $(,)?) => { crate::mqtt::common::verif_model::Vec::from_array([$($x),*]) };
+}
 use core::fmt::Debug;
 
 /// Core trait for sendable packets
